@@ -52,6 +52,20 @@ def opsSatD (t : Tables) (kind op : String) (args : List String) : Option String
     else if descSatExNM a tk ls && nonmall == "none" then
       pure "bad:table-satisfiable-sane-all-preimages-but-get_satisfaction-found-nothing"
     else pure "ok"
+  -- J dcompleteS <same arguments>: for a descriptor that the library's CONSTRUCTOR accepted
+  -- although it is on the designated refused-today list (malleable / sigless branch / repeated
+  -- key / mixed lock units / context rule / limit + 1): the statement's non-malleable sentence is
+  -- read literally ("descriptors that pass the library's sanity rules") - whenever some leaf is
+  -- table-satisfiable with all its preimages known, get_satisfaction must answer
+  | "J", "dcompleteS", [_wrap, _ik, _shape, leaves, assets, tk, mall, nonmall] => do
+    let ls ← parseLeaves leaves; let a ← parseAssets assets
+    let tk := tk == "1"
+    if descSatEx a tk ls && mall == "none" then
+      pure "bad:table-satisfiable-but-get_satisfaction_mall-found-nothing"
+    else if (tk || ls.any (fun ms => Complete.allNodes (Complete.preKnown a) ms && satEx (availOf a) ms))
+        && nonmall == "none" then
+      pure "bad:accepted-as-sane-table-satisfiable-all-preimages-but-get_satisfaction-found-nothing"
+    else pure "ok"
   -- J dplan <wrap> <internal|-> <shape|-> <leaves|-> <assets> <tapkey> <mode mall|nonmall> <ok|errsame|errdiff>
   | "J", "dplan", [_wrap, _ik, _shape, leaves, assets, tk, mode, res] => do
     let ls ← parseLeaves leaves; let a ← parseAssets assets
